@@ -239,12 +239,16 @@ def build_document(v, root_kind, vary_names=True, vary_ids=True, full=None):
     return (doc if doc is not None else s0), objs, secs, props
 
 
-def decorate_properties(v, props, secs, preset=None, cards=True, deps=True):
-    """Values, dependencies, dtype inconsistencies, cardinalities."""
+def decorate_properties(v, props, secs, preset=None, cards=True, deps=True, rich=None):
+    """Values, dependencies, dtype inconsistencies, cardinalities.  rich (default: the thorough tier) adds a fourth
+    value kind for the dependency target, a second value for the inconsistent Property and larger cardinality pools
+    (one cardinality kind at a time: a sum, not a product)."""
+    if rich is None:
+        rich = v.tier != "quick"
     for i, prop in enumerate(props):
         if preset is not None and i == 0:
             kind = preset[0]
-        elif i == 0 or v.tier != "quick":
+        elif i == 0 or rich:
             kind = v.choice("pvals%d" % i, 4)
         else:
             kind = v.choice("pvals%d" % i, 3)      # quick: the dependency target has no value, a text or an int
@@ -255,7 +259,7 @@ def decorate_properties(v, props, secs, preset=None, cards=True, deps=True):
             prop.values = [v.pick("pint%d" % i, [5, 0, 12])]
         elif kind == 3:
             text = v.pick("ptext%d" % i, ["1", "a", "1.5", "2020-01-02"])
-            prop.values = [text, "a"] if (v.tier != "quick" and v.bool("ptwo%d" % i)) else [text]
+            prop.values = [text, "a"] if (rich and i == 0 and v.bool("ptwo%d" % i)) else [text]
             bad = v.pick("pdtype%d" % i, ["string", "int", "float", "date", "boolean"])
             prop._dtype = bad
     if props:
@@ -278,11 +282,19 @@ def decorate_properties(v, props, secs, preset=None, cards=True, deps=True):
             elif vk == 3:
                 p0.dependency_value = v.pick("depval.int", [5, 0])
     if cards and v.bool("cards"):
-        quick = v.tier == "quick"
-        if props:
-            props[0].val_cardinality = v.pick("vcard", [(1, None), (None, 1)] if quick else [(1, None), (None, 1), (2, 2), (0, 1)])
-        secs[0].prop_cardinality = (2, 2) if quick else v.pick("pcard", [(1, None), (None, 1), (2, 2)])
-        secs[0].sec_cardinality = (1, 1) if quick else v.pick("scard", [(1, None), (None, 1), (1, 1)])
+        if not rich:
+            if props:
+                props[0].val_cardinality = v.pick("vcard", [(1, None), (None, 1)])
+            secs[0].prop_cardinality = (2, 2)
+            secs[0].sec_cardinality = (1, 1)
+        else:
+            which = v.choice("card.which", 3)
+            if which == 0 and props:
+                props[0].val_cardinality = v.pick("vcard", [(1, None), (None, 1), (2, 2), (0, 1)])
+            elif which == 1:
+                secs[0].prop_cardinality = v.pick("pcard", [(1, None), (None, 1), (2, 2)])
+            else:
+                secs[0].sec_cardinality = v.pick("scard", [(1, None), (None, 1), (1, 1)])
 
 
 def compare(v, root, objs, with_ids=True):
@@ -374,7 +386,7 @@ def properties_ob(v):
             v.assume(False)
         props.append(prop)
         objs.append(prop)
-    decorate_properties(v, props, secs, preset, cards=(v.tier != "quick"))
+    decorate_properties(v, props, secs, preset, cards=(v.tier != "quick" and preset[1] == 0))
     compare(v, doc, objs)
 
 
